@@ -42,6 +42,8 @@ func runC12(p *core.Prog, r *core.Report) {
 	c12R11(p, r)
 	// what is sent again must still be readable (shared with C05.R10)
 	readKeepsSourceRule(p, r, "C12.R12")
+	c12R13(p, r)
+	c12R14(p, r)
 }
 
 // c12R8: a body that ends early is recognised, and resumed with a Range request, only when the
@@ -1886,5 +1888,104 @@ func c12R11(p *core.Prog, r *core.Report) {
 	}
 	if n == 0 {
 		r.Held(rule, "scheme/reg", "probe sent with IgnoreErr", "", "no function sends an IgnoreErr request and other requests after it")
+	}
+}
+
+// ---------------------------------------------------------------------------------------------
+// R13 an operation is not restarted from scratch by calling itself
+
+// c12R13: the loops of the request code are bounded by R3. Recursion is a loop too: a function that
+// sends requests and, on some answer, calls itself with exactly the arguments it was given starts
+// the whole operation again — new session, same stream, same answer — with nothing that counts the
+// restarts. (Mutual recursion with changed arguments, such as a manifest push that pushes the
+// fallback referrers index, is not this shape.)
+func c12R13(p *core.Prog, r *core.Report) {
+	const rule = "C12.R13"
+	r.Rule(rule, "no unbounded restart by recursion: a function of scheme/reg, internal/reghttp or internal/auth from which an HTTP request is reachable does not call itself (directly or from one of its literals) with every argument being its own parameter unchanged", 0)
+	doers := reachers(p, httpDoers(p))
+	n := 0
+	for _, rel := range []string{"scheme/reg", "internal/reghttp", "internal/auth"} {
+		for _, fn := range pkgFuncs(p, rel) {
+			if fn.Parent() != nil || !doers[fn] || len(fn.Blocks) == 0 {
+				continue
+			}
+			lab := labeler{}
+			for _, g := range core.WithAnon(fn) {
+				core.Calls(g, func(c ssa.CallInstruction) {
+					if core.CalleeFn(c) != fn {
+						return
+					}
+					n++
+					args := c.Common().Args
+					same := len(args) == len(fn.Params)
+					for i := 0; same && i < len(args); i++ {
+						// the parameter itself, possibly after fields of it were filled in (a cell)
+						same = core.HasOrigin(core.Origins(args[i], core.SliceOpts{}), func(o core.Origin) bool {
+							if o.Kind == core.OParam && o.Param == fn.Params[i] {
+								return true
+							}
+							if fv, isFV := o.Val.(*ssa.FreeVar); o.Kind == core.OFree && isFV {
+								return core.FreeVarBinding(fv) == ssa.Value(fn.Params[i])
+							}
+							return false
+						})
+					}
+					r.Check(!same, rule, p.FuncName(fn), lab.next("calls itself"), p.Pos(c.Pos()),
+						"the function sends requests and calls itself with exactly the arguments it was given: the operation is started over with nothing that bounds the number of restarts (a registry that keeps giving the answer that leads here is asked forever)")
+				})
+			}
+		}
+	}
+	if n == 0 {
+		r.Held(rule, "scheme/reg, internal/reghttp, internal/auth", "self-recursive request functions", "-", "no function that sends requests calls itself")
+	}
+}
+
+// ---------------------------------------------------------------------------------------------
+// R14 a host's release time is only replaced with a look at what it holds
+
+// c12R14: "backed off from for at least the configured (or server-requested) delay". The time a host
+// may be contacted again is shared by every request in flight to that host. A store that replaces it
+// without looking at the value it holds lets the answer that is processed last shorten a delay that an
+// earlier answer asked for.
+func c12R14(p *core.Prog, r *core.Report) {
+	const rule = "C12.R14"
+	r.Rule(rule, "the release time of a host moves with a look at what it holds: every store of a non-zero time into a time.Time field of the per-host state of internal/reghttp either computes the new value from the old one or is guarded by a comparison that involves the old one (Before/After/IsZero on the field)", 2)
+	hostT := p.Named("internal/reghttp", "clientHost")
+	if hostT == nil {
+		r.MissingAnchor(rule, "internal/reghttp.clientHost")
+		return
+	}
+	pkgPath := modPath("internal/reghttp")
+	tname := hostT.Obj().Name()
+	isTime := func(t types.Type) bool { return core.IsNamed(t, "time", "Time") }
+	n := 0
+	lab := labeler{}
+	for _, fs := range fieldStores(pkgFuncs(p, "internal/reghttp"), func(nm *types.Named, f string) bool { return nm == hostT }) {
+		_, fld := core.FieldAddrInfo(fs.Addr)
+		if !isTime(fs.Store.Val.Type()) {
+			continue
+		}
+		// the zero time: a reset
+		if _, isC := fs.Store.Val.(*ssa.Const); isC {
+			continue
+		}
+		if u, ok := fs.Store.Val.(*ssa.UnOp); ok && u.Op == token.MUL {
+			if al, ok := u.X.(*ssa.Alloc); ok && len(core.StoresToCell(al)) == 0 {
+				continue // time.Time{} through a zero-initialised local
+			}
+		}
+		n++
+		ok := dependsOnField(fs.Store.Val, pkgPath, tname, fld)
+		if !ok {
+			ok = anyGuard(fs.Store.Block(), func(c ssa.Value, pol bool) bool {
+				return dependsOnField(c, pkgPath, tname, fld)
+			})
+		}
+		r.Check(ok, rule, p.FuncName(fs.Fn), lab.next("store to "+fld), p.Pos(fs.Store.Pos()),
+			"the release time of the host is overwritten without a look at the value it holds: with several requests in flight the answer processed last can move the time backwards and the host is contacted before a delay it asked for has passed")
+	}
+	if n == 0 {
+		r.MissingAnchor(rule, "stores of a time into the per-host state")
 	}
 }
